@@ -175,8 +175,13 @@ def check(prop, tier, seed, nruns=None, nworkers=None, quiet=False):
                 else:
                     new_keys.setdefault(findings.key_of(prop, v), (r, v))
         lines = []
+        byf = {}
         for key, (f, n, v) in sorted(known_hits.items()):
-            lines.append("KNOWN-FINDING: property=%s %s/%s/%s hit %d times: %s" % (PROP, key[1], key[2], key[3], n, f.get("what", "")))
+            e = byf.setdefault(id(f), [f, 0, []])
+            e[1] += n
+            e[2].append(key[2])
+        for f, n, comps in byf.values():
+            lines.append("KNOWN-FINDING: property=%s %s/%s/%s hit %d times (%s): %s" % (PROP, f["clause"], f["component"], f["disc"], n, ",".join(sorted(set(comps)))[:80], f.get("what", "")))
         replays = []
         tmin0 = time.time()
         for key, (r, v) in list(sorted(new_keys.items(), key=lambda kv: kv[1][0]))[:4]:
